@@ -239,8 +239,12 @@ def seq_race(lib, p11drv, seed, idx, shim, codecdrv):
                   'set_vs_destroy_other': 'destroy %s %s' % (B.s, B.handles[Y]), 'create_vs_create': 'create %s 0=u:4 0x100=u:0x1f 1=b:1 2=b:0 3=x:%s 0x11=x:%s 0x162=b:1 0x103=b:0' % (B.s, newB, 'bb' * 16),
                   'set_vs_look': None, 'destroy_vs_set_same': 'setattr %s %s 3=x:%s' % (B.s, B.handles[X], hexs('Xb%d' % idx)), 'create_vs_look': None}[case]
         # how many events does A's call have?  (log mode on a scratch copy would disturb the state: take a generous range)
-        k = rng.randint(1, {'create': 40, 'setatt': 14, 'destro': 6}[a_line[:6]])
+        k = rng.randint(1, {'create': 300, 'setatt': 112, 'destro': 9}[a_line[:6]]) if rng.random() < 0.7 else rng.randint(1, {'create': 40, 'setatt': 14, 'destro': 6}[a_line[:6]])
         stats['pause_point'] = k
+        if not b_line and case == 'set_vs_look':
+            # a first, complete change that B has not looked at yet: B's next look finds the generation changed and re-reads the
+            # object file - which A's second call is then in the middle of rewriting
+            A.p.op('setattr %s %s 0x102=x:%s' % (A.s, A.handles[X], hexs('pre')))
         A.arm('pause %d' % k)
         A.p.send(a_line)
         import time
@@ -255,8 +259,35 @@ def seq_race(lib, p11drv, seed, idx, shim, codecdrv):
                 stats['b_overtook'] = 1
             else:
                 stats['b_waited_for_lock'] = 1
+        vmid = 'none'
+        if not b_line:
+            # B reads everything while A is stopped in the middle of its write: B either waits for A's lock or sees a
+            # complete state (the old or the new one) - never a half-written object
+            import threading
+            box = {}
+            th = threading.Thread(target=lambda: box.update(v=B.look()))
+            th.start()
+            th.join(0.4)
+            if th.is_alive():
+                stats['b_waited_for_lock'] = 1
+            else:
+                stats['b_overtook'] = 1
+            A.arm('off')
+            th.join(30)
+            vmid = box.get('v')
         A.arm('off')
         ra = A.p.recv()
+        if vmid != 'none':
+            gm = {l.split('#')[0]: as_ghost(a_) for l, a_ in (vmid or {}).items()}
+            trace.append(('B look (while A is paused)', {'rv': '0x0', 'n': len(gm)}))
+            if vmid is None:
+                bad('%s: B cannot search while A is in the middle of its call' % case)
+            else:
+                for lab in (X, Y):
+                    if lab not in gm:
+                        bad('%s: while A was in the middle of its write, B did not see the committed object %s (a half-written file was read without waiting for the writer\'s lock)' % (case, bytes.fromhex(lab).decode()))
+                    elif gm[lab].get('value') in (None, '') or (lab == X and case == 'set_vs_look' and gm[lab].get('oid') not in (hexs('ida'), hexs('pre'))) :
+                        bad('%s: while A was in the middle of its second write, B read a partial or stale object %s (CKA_ID %s; A had committed %s before and is writing %s): %s' % (case, bytes.fromhex(lab).decode(), gm[lab].get('oid'), hexs('pre'), hexs('ida'), gm[lab]))
         if b_line and rb is None:
             rb = B.p.recv()              # B was waiting for A's lock
         if b_line:
